@@ -176,6 +176,10 @@ def run(ctx: Ctx):
                 ctx.violation("wigner_3j/history/stale-or-shared", {"history": [f"call{t}{dt}", "mul_(3).add_(1)", f"call{t}{dt}"],
                               "equal_to_pristine": bool(torch.equal(b, want)), "fresh_storage": b.data_ptr() != a.data_ptr()}, True)
                 return
+    import extra_oracles
+    extra_oracles.c04_device_spellings(ctx, o3, [(0, 0, 0), (1, 1, 1), (1, 2, 1), (2, 3, 4), (3, 2, 4)])
+    if ctx.violations:
+        return
     for h in range(n_hist):
         pool = ctx.rng.sample(small, 3)   # few triples per history so that repeated calls of the same triple are frequent
         handles = []
